@@ -6,6 +6,7 @@ import (
 	"fmt"
 	"os"
 	"path/filepath"
+	"runtime/pprof"
 	"sort"
 	"strconv"
 	"strings"
@@ -15,11 +16,22 @@ import (
 )
 
 func main() {
+	if pf := os.Getenv("VERIF_CPUPROFILE"); pf != "" {
+		if f, err := os.Create(pf); err == nil {
+			pprof.StartCPUProfile(f)
+		}
+	}
+	rc := realMain()
+	pprof.StopCPUProfile()
+	os.Exit(rc)
+}
+
+func realMain() int {
 	if len(os.Args) >= 3 && os.Args[1] == "callers" {
 		prog, err := core.Load("/repo")
 		if err != nil {
 			fmt.Println(err)
-			os.Exit(2)
+			return 2
 		}
 		cg := prog.CallGraph()
 		for _, fn := range prog.ModFuncs {
@@ -33,27 +45,27 @@ func main() {
 				}
 			}
 		}
-		return
+		return 0
 	}
 	if len(os.Args) >= 2 && os.Args[1] == "slices" {
 		prog, err := core.Load("/repo")
 		if err != nil {
 			fmt.Println(err)
-			os.Exit(2)
+			return 2
 		}
 		rules.DebugSlices(prog)
 		rules.DebugPanics(prog)
-		return
+		return 0
 	}
 	if len(os.Args) >= 2 && os.Args[1] == "modes" {
 		prog, err := core.Load("/repo")
 		if err != nil {
 			fmt.Println(err)
-			os.Exit(2)
+			return 2
 		}
 		rules.DebugModes(prog)
 		rules.DebugClamp(prog)
-		return
+		return 0
 	}
 	if len(os.Args) < 3 || os.Args[1] != "check" {
 		var ids []string
@@ -62,7 +74,7 @@ func main() {
 		}
 		sort.Strings(ids)
 		fmt.Fprintf(os.Stderr, "usage: verifchk check <property> [--tier quick|thorough] [--repo dir] [--verif dir]\nproperties: %v\n", ids)
-		os.Exit(2)
+		return 2
 	}
 	prop := os.Args[2]
 	tier := os.Getenv("VERIF_TIER")
@@ -96,26 +108,26 @@ func main() {
 	run, ok := rules.Registry[prop]
 	if !ok {
 		fmt.Fprintf(os.Stderr, "unknown property %s\n", prop)
-		os.Exit(2)
+		return 2
 	}
 	rep, err := core.NewReport(prop, tier, seed, filepath.Join(verif, "known_findings.json"))
 	if err != nil {
 		fmt.Println("cannot read known findings:", err)
 		fmt.Printf("VIOLATION property=%s replay=%s\n", prop, filepath.Join(verif, "known_findings.json"))
-		os.Exit(1)
+		return 1
 	}
 	prog, err := core.Load(repo)
 	if err != nil {
 		// a tree that does not load/type-check cannot be decided: fail, never pass vacuously
 		rep.Fail("load", "packages.Load "+repo, "-", err.Error())
-		os.Exit(rep.Finish(verif))
+		return rep.Finish(verif)
 	}
 	rep.Extra["packages_loaded"] = len(prog.Pkgs)
 	rep.Extra["module_functions"] = len(prog.ModFuncs)
 	rep.Extra["load_s"] = prog.LoadSecs
 	ctx := &rules.Ctx{P: prog, R: rep, Tier: tier}
 	ctx.RunSafely(run)
-	os.Exit(rep.Finish(verif))
+	return rep.Finish(verif)
 }
 
 func fileExists(p string) bool {
